@@ -4,10 +4,10 @@ CONSTANTS
   KeyLen = 2
   Names = {"a"}
   Main = {"a"}
-  Opts <- OptsTeeth
+  Opts <- OptsOne
   MaxMaj = 3
   MaxMin = 1
-  MaxForks = 1
+  MaxForks = 0
   MaxTouch = 1
   InitConts <- InitA1
   InFlightReads = TRUE
